@@ -257,6 +257,9 @@ func (p *Program) Dump() ([]string, error) {
 	}
 	var out []string
 	for _, f := range p.Files {
+		if f.Deleted {
+			continue
+		}
 		path := f.RelPath()
 		out = append(out, "module "+path)
 		for _, j := range f.Includes {
@@ -367,6 +370,9 @@ func (p *Program) checkRefs() error {
 		walk(t.Elem)
 	}
 	for _, f := range p.Files {
+		if f.Deleted {
+			continue
+		}
 		for _, d := range f.Defs {
 			if d.Removed {
 				continue
